@@ -271,12 +271,193 @@ class Program(object):
         r = list(self.by_name.get(base, [])) if exact else list(self.by_base.get(base, []))
         if len(r) < min_count:
             raise AnalysisBroken("anchor function %s: found %d definition(s), need >= %d" % (base, len(r), min_count))
-        return r
+        return [self.flat(f) for f in r]
 
     def find1(self, base):
         r = self.find(base, 1)
         # several instantiations are fine for templates, but a non-template must be unique
         return r[0]
+
+    # ---- flattening: helpers introduced after the reference snapshot are expanded in place ----
+    _REF = None
+
+    @classmethod
+    def reference(cls):
+        if cls._REF is None:
+            p = os.path.join(VERIF, "reference", "functions.json")
+            try:
+                with open(p) as fh:
+                    d = json.load(fh)
+                cls._REF = (set(d.get("functions", [])), {k: set(v) for k, v in d.get("lambda_vars", {}).items()})
+            except (OSError, ValueError):
+                cls._REF = (None, {})
+        return cls._REF
+
+    def expandable(self, caller, ev, g):
+        """g is a helper the code of `caller` was moved into after the rules were written: a library function that does not exist in
+        the reference snapshot, or a local lambda of `caller` bound to a variable the reference does not know.  Functions and lambdas
+        that existed when the rules were confirmed are never expanded (the rules deal with them as they are)."""
+        names, lams = self.reference()
+        if names is None or not g.blocks:
+            return False
+        if g.is_lambda:
+            top = self.owner(caller)
+            if self.owner(g).id != top.id:
+                return False
+            var = (ev.get("recv") or {}).get("v") or (ev.get("recv") or {}).get("root")
+            return bool(var) and var not in lams.get(top.base, set())
+        pref = (os.path.join(REPO, "src") + os.sep, os.path.join(REPO, "include") + os.sep)
+        return g.file.startswith(pref) and g.base not in names
+
+    def flat(self, func, depth=3):
+        """func with every call of an expandable helper (see above) replaced by the helper's own CFG: the call event stays, followed by
+        one synthetic declaration per parameter (`param := argument`), the helper's blocks (its returns become 'iret' events and lead on
+        to the code after the call; its throws lead to the function exit), and the rest of the calling block.  On a tree without new
+        helpers flat(f) is f."""
+        memo = self.__dict__.setdefault("_flat_memo", {})
+        if func.id in memo:
+            return memo[func.id]
+        memo[func.id] = func
+        res = self._flatten(func, depth, (func.id,))
+        memo[func.id] = res
+        return res
+
+    def _flatten(self, func, depth, stack):
+        todo = []
+        for b in func.blocks.values():
+            for e in b.elems:
+                if e["k"] == "call" and depth > 0:
+                    gs = [g for g in self.resolve_call(e) if g.id not in stack and self.expandable(func, e, g)]
+                    if len(gs) >= 1 and not e.get("virt"):
+                        todo.append((b.id, e.idx, gs[0]))
+        if not todo:
+            return func
+        import copy
+        nf = copy.copy(func)
+        nf.blocks = {}
+        nf.flattened = True
+
+        def clone_ev(e, **over):
+            c = Event(dict(e))
+            c.update(over)
+            c.func = nf
+            return c
+
+        def mk(bid, elems, succs, term, label):
+            blk = Block.__new__(Block)
+            blk.id, blk.elems, blk.succs, blk.term, blk.label, blk.preds, blk.unreach = bid, elems, list(succs), term, label, [], []
+            nf.blocks[bid] = blk
+            return blk
+        by_block = {}
+        for bid, idx, g in todo:
+            by_block.setdefault(bid, []).append((idx, g))
+        for b in func.blocks.values():
+            pieces = sorted(by_block.get(b.id, []), key=lambda x: x[0])
+            if not pieces:
+                mk(b.id, [clone_ev(e) for e in b.elems], b.succs, b.term, b.label)
+                continue
+            # split the block at every expanded call: [.. call, param decls] -> callee -> [rest].  New block ids are fractions between
+            # b.id - 1 and b.id so that "descending block id = source order" (clang's numbering) stays true for the flattened function
+            span = 1.0 / (len(pieces) + 1)
+            start = 0
+            cur = mk(b.id, [], [], None, b.label)
+            for j, (idx, g) in enumerate(pieces, 1):
+                gflat = self._flatten(g, depth - 1, stack + (g.id,))
+                call = b.elems[idx]
+                cur.elems += [clone_ev(e) for e in b.elems[start:idx + 1]]
+                cur.elems[-1]["inlined"] = gflat.id
+                for i, p_ in enumerate(gflat.params):
+                    args = call.get("args") or []
+                    if i < len(args) and p_.get("name"):
+                        a_ = args[i]
+                        cur.elems.append(clone_ev({"k": "bind", "var": p_["name"], "type": p_.get("type"), "init": dict(a_), "synthetic": True, "l": call.get("l"), "fl": call.get("fl"),
+                                                   "refs": (["v:" + a_["v"]] if a_.get("v") else []) + (["f:" + a_["f"]] if a_.get("f") else []), "t": "%s := %s" % (p_["name"], a_.get("t"))}))
+                # names inside the helper: a parameter that is handed a plain variable of the caller *is* that variable (structured
+                # fields and expression text); other parameters and the helper's own locals get a suffix so that they cannot be
+                # mistaken for a caller variable of the same name
+                suffix = "@" + (gflat.base.rsplit("::", 1)[-1] if not gflat.is_lambda else "lambda%s" % gflat.line)
+                ren, txt = {}, {}
+                cargs = call.get("args") or []
+                for i, p_ in enumerate(gflat.params):
+                    pn = p_.get("name")
+                    if not pn:
+                        continue
+                    a_ = cargs[i] if i < len(cargs) else {}
+                    if a_.get("v") and (a_.get("t") or "").strip() in (a_["v"], "std::move(%s)" % a_["v"]):
+                        ren[pn] = (a_["v"], a_.get("vd"))
+                        txt[pn] = a_["v"]
+                    else:
+                        ren[pn] = (pn + suffix, None)
+                        if a_.get("t"):
+                            txt[pn] = "(%s)" % a_["t"] if re.search(r"[^\w.>:\-()\[\]]", a_["t"]) else a_["t"]
+                for d_ in gflat.events("decl"):
+                    if d_.get("var") and d_["var"] not in ren and not d_.get("synthetic"):
+                        ren[d_["var"]] = (d_["var"] + suffix, None)
+                tpat = re.compile(r"(?<![\w.>])(%s)\b" % "|".join(map(re.escape, sorted(txt, key=len, reverse=True)))) if txt else None
+
+                def subst(x):
+                    if isinstance(x, dict):
+                        out = {}
+                        for k_, v_ in x.items():
+                            if k_ in ("v", "var", "root") and isinstance(v_, str) and v_ in ren:
+                                out[k_] = ren[v_][0]
+                                if ren[v_][1] is not None:
+                                    out["vd" if k_ in ("v", "var") else "rootd"] = ren[v_][1]
+                            elif k_ in ("vd", "rootd") and out.get("v" if k_ == "vd" else "root") != x.get("v" if k_ == "vd" else "root"):
+                                out.setdefault(k_, v_) if ren.get(x.get("v" if k_ == "vd" else "root"), (None, None))[1] is None else None
+                            elif k_ in ("t", "cond") and isinstance(v_, str) and tpat is not None:
+                                out[k_] = tpat.sub(lambda m_: txt[m_.group(1)], v_)
+                            elif k_ in ("refs", "leafrefs") and isinstance(v_, list):
+                                out[k_] = [("v:" + ren[r_[2:]][0]) if isinstance(r_, str) and r_.startswith("v:") and r_[2:] in ren else r_ for r_ in v_]
+                            else:
+                                out[k_] = subst(v_)
+                        return out
+                    if isinstance(x, list):
+                        return [subst(y) for y in x]
+                    return x
+                rest_id = b.id - j * span
+                gkeys = sorted(gflat.blocks)
+                gmax = float(max(gkeys)) + 1.0
+                gmin = float(min(gkeys))
+                base_hi = b.id - (j - 1) * span - span * 0.05
+                idmap = {k: base_hi - (1.0 - (float(k) - gmin) / (gmax - gmin)) * span * 0.9 for k in gkeys}
+                for gb in gflat.blocks.values():
+                    if gb.id == gflat.exit:
+                        continue
+                    elems, last_kind = [], None
+                    for e in gb.elems:
+                        e2 = subst(dict(e))
+                        if e["k"] == "return":
+                            elems.append(clone_ev(e2, k="iret", of=gflat.id))
+                            last_kind = "return"
+                        else:
+                            elems.append(clone_ev(e2))
+                            if e["k"] == "throw":
+                                last_kind = "throw"
+                    succs = []
+                    for s_ in gb.succs:
+                        if s_ is None:
+                            succs.append(None)
+                        elif s_ == gflat.exit:
+                            succs.append(func.exit if last_kind == "throw" else rest_id)
+                        else:
+                            succs.append(idmap[s_])
+                    mk(idmap[gb.id], elems, succs, subst(gb.term) if gb.term else gb.term, gb.label)
+                cur.succs = [idmap[gflat.entry]] if gflat.entry != gflat.exit else [rest_id]
+                cur.term = None
+                cur = mk(rest_id, [], [], None, None)
+                start = idx + 1
+            cur.elems += [clone_ev(e) for e in b.elems[start:]]
+            cur.succs, cur.term = list(b.succs), b.term
+        # renumber events and rebuild predecessors
+        for blk in nf.blocks.values():
+            for i, e in enumerate(blk.elems):
+                e.block, e.idx = blk.id, i
+        for blk in nf.blocks.values():
+            for s_ in blk.succs:
+                if s_ is not None and s_ in nf.blocks:
+                    nf.blocks[s_].preds.append(blk.id)
+        return nf
 
     def owner(self, func):
         """the named function a (possibly nested) lambda is written in; func itself when it is not a lambda"""
